@@ -640,7 +640,10 @@ MANIFEST = {
              "retrying buffers: 3^k runs; linked to the stateful loop by C20_retry_stateful_link), C20_abort_restores, C20_failed_hijack_relayed and "
              "C20_buffer_drops_body_kinds (exactly which responses a Buffer relays without body), by induction over the "
              "stack (any order, depth, repetition; any handler script). The model Stack.serveStack is tied to the code by running real stacks of the "
-             "real middlewares behind a real HTTP server (thorough: all ordered subsets of depth <= 4) against the compiled model."),
+             "real middlewares behind a real HTTP server (thorough: all ordered subsets of depth <= 4) against the compiled model. The writer that "
+             "trace / cbreaker / Rebalancer hand inward (utils.ProxyWriter) is modelled call by call (Model/Writer.lean): C20_pw_transparent, "
+             "C20_pw_depth_irrelevant, C20_pw_records, C20_pw_capabilities, C20_pw_status_is_wire_status (+ counterexample outside the orderly domain), "
+             "tied by cfg pw scenarios that drive real nested ProxyWriters over a recording writer (thorough: all call sequences of length <= 4)."),
     "note": ("Partial: (1) the byte-level relay -- net/http's response writing, Flush and Hijack are exercised on every scenario, not proved; (2) each "
              "layer's decision to intervene is one number / flag of the model, linked to the per-layer models of C01-C05/C13/C15 by C20_link_connlimit, "
              "C20_link_ratelimit, C20_link_breaker, C20_link_balancer, C20_link_buffer (summarised by C20_link_decision; C20_transparent_composed and "
